@@ -355,6 +355,35 @@ namespace sim
 
    // ------------------------------------------------------------ actions
    void log_action( Ev k, std::uint32_t rule, std::uint8_t fam, const Snap& begin, std::uint32_t e, std::uint32_t chash, std::uint32_t sid, bool result );
+   void soft_violation( std::uint32_t what, std::uint64_t value, const Snap& s );
+   const char* g_buf_base() noexcept;
+
+   template< typename T, typename = void >
+   inline constexpr bool has_buffer_occupied = false;
+   template< typename T >
+   inline constexpr bool has_buffer_occupied< T, std::void_t< decltype( std::declval< const T& >().buffer_occupied() ) > > = true;
+
+   // the span handed to an action must lie inside the data the input currently makes available;
+   // checked before the harness reads it (content hash)
+   template< typename AI >
+   std::uint32_t span_hash( const AI& ai, const Snap& b )
+   {
+      const char* lo;
+      const char* hi;
+      if constexpr( has_buffer_occupied< typename AI::input_t > ) {
+         lo = g_buf_base();
+         hi = ai.input().current() + ai.input().buffer_occupied();
+      }
+      else {
+         lo = ai.input().begin();
+         hi = ai.input().end();
+      }
+      if( ai.end() < ai.begin() || ai.begin() < lo || ai.end() > hi ) {
+         soft_violation( 7, static_cast< std::uint64_t >( ai.end() - ai.begin() ), b );
+         return 0;
+      }
+      return static_cast< std::uint32_t >( fnv1a( ai.begin(), ai.size() ) );
+   }
 
    // K: 0 none, 1 void apply, 2 bool apply, 3 void apply0, 4 bool apply0
    template< typename Rule, int K, int FAM >
@@ -382,7 +411,7 @@ namespace sim
          if constexpr( Bool ) {
             result = !W.veto( g_rules[ r ].namehash, b.byte, e );
          }
-         log_action( Ev::A_APPLY, r, FAM, b, e, static_cast< std::uint32_t >( fnv1a( ai.begin(), ai.size() ) ), sid_of( st... ), result );
+         log_action( Ev::A_APPLY, r, FAM, b, e, span_hash( ai, b ), sid_of( st... ), result );
          maybe_fault( SITE_ACTION, ai );
          if constexpr( Bool ) {
             return result;
@@ -462,7 +491,7 @@ namespace sim
       static void apply( const AI& ai, St&&... st )
       {
          const Snap b = action_snap( ai );
-         log_action( Ev::X_APPLY, ID, 0, b, b.byte + static_cast< std::uint32_t >( ai.size() ), static_cast< std::uint32_t >( fnv1a( ai.begin(), ai.size() ) ), sid_of( st... ), true );
+         log_action( Ev::X_APPLY, ID, 0, b, b.byte + static_cast< std::uint32_t >( ai.size() ), span_hash( ai, b ), sid_of( st... ), true );
          maybe_fault( SITE_ACTION, ai );
       }
    };
@@ -476,7 +505,7 @@ namespace sim
          const Snap b = action_snap( ai );
          const std::uint32_t e = b.byte + static_cast< std::uint32_t >( ai.size() );
          const bool result = !W.veto( 0x1234u + ID, b.byte, e );
-         log_action( Ev::X_APPLY, ID, 0, b, e, static_cast< std::uint32_t >( fnv1a( ai.begin(), ai.size() ) ), sid_of( st... ), result );
+         log_action( Ev::X_APPLY, ID, 0, b, e, span_hash( ai, b ), sid_of( st... ), result );
          maybe_fault( SITE_ACTION, ai );
          return result;
       }
